@@ -193,6 +193,13 @@ def reference(spec):
             mu = np.zeros(2 * n)
             V[np.ix_(A, A)] = VA
             mu[A] = mA
+        elif name == "PassiveChannel":
+            # documented action a_i^dag -> sum_j T_ij a_j^dag on the listed modes: mu -> S mu, V -> S V S^T + (1 - S S^T) (hbar = 2 vacuum fill)
+            Te = np.eye(n, dtype=complex)
+            Te[np.ix_(modes, modes)] = np.array(params[0], dtype=float) + 1j * np.array(params[1], dtype=float)
+            S = np.block([[Te.real, -Te.imag], [Te.imag, Te.real]])
+            mu = S @ mu
+            V = S @ V @ S.T + np.eye(2 * n) - S @ S.T
         elif name == "GaussianNoDecomp":
             Vn, rn = np.array(params[0], dtype=float), np.array(params[1], dtype=float)
             kk = len(modes)
@@ -279,12 +286,15 @@ def search(ctx):
             spec["cmds"] = sfgen.entangling_prefix(rng, spec["n"]) + spec["cmds"][:pos] + [sfgen.random_cmd(rng, spec["n"], [mname], 0.0)] + spec["cmds"][pos:]
         if "live" not in spec and rng.random() < 0.2:
             spec["cmds"].insert(rng.randint(0, len(spec["cmds"])), gaussian_prep_cmd(rng, spec["n"]))
+        if "live" not in spec and rng.random() < 0.15:
+            # PassiveChannel exists on the Gaussian backend only: gaussian vs reference
+            spec["cmds"].insert(rng.randint(0, len(spec["cmds"])), sfgen.random_cmd(rng, spec["n"], ["PassiveChannel"]))
         meas = any(c[0] in sfgen.MEASURE_SEL for c in spec["cmds"])
         data = {"check": "gbr", "spec": spec}
         try:
             g = bc.gauss_obs(bc.run(spec, "gaussian"))
-            b = bc.gauss_obs(bc.run(spec, "bosonic"))
             r = reference(spec)
+            b = r if gauss_only(spec) else bc.gauss_obs(bc.run(spec, "bosonic"))
         except Exception as e:
             ctx.counterexample("gbr:raises:%s" % type(e).__name__, "running %s raised %r" % (spec, e), data)
             continue
@@ -336,10 +346,14 @@ def search(ctx):
                                {"check": "gauss-fock", "backend": backend, "spec": spec1})
 
 
+def gauss_only(spec):
+    return any(c[0] == "PassiveChannel" for c in spec["cmds"])
+
+
 def any_diff(spec):
     g = bc.gauss_obs(bc.run(spec, "gaussian"))
-    b = bc.gauss_obs(bc.run(spec, "bosonic"))
     r = reference(spec)
+    b = r if gauss_only(spec) else bc.gauss_obs(bc.run(spec, "bosonic"))
     tol = 2e-5 if any(c[0] in sfgen.MEASURE_SEL for c in spec["cmds"]) else 1e-8
     return cmp_gauss(g, b, tol) or cmp_gauss(g, r, tol) or cmp_gauss(b, r, tol)
 
